@@ -106,7 +106,7 @@ func (c *c10) Summary(w *sim.World) (string, []string) {
 }
 
 var C10 = register(&HistProp{ID: "C10",
-	Genesis: func(t *rapid.T) *sim.GenSpec { return sim.DrawGenesis(t, sim.GenOpts{}) },
+	Genesis: func(t *rapid.T) *sim.GenSpec { return sim.DrawGenesis(t, sim.GenOpts{AbsentOpt: true}) },
 	Next: func(g *sim.G, i int) *sim.Op {
 		if op := queuedOp(g); op != nil {
 			return op
@@ -417,7 +417,7 @@ func roleRollbackProbe(g *sim.G, label string) []*sim.Op {
 var roleTypes = []string{"UpdateOwner", "UpdateOwner", "AcceptOwner", "AcceptOwner", "UpdateAttesterManager", "UpdatePauser", "UpdateTokenController"}
 
 var C11 = register(&HistProp{ID: "C11",
-	Genesis: func(t *rapid.T) *sim.GenSpec { return sim.DrawGenesis(t, sim.GenOpts{}) },
+	Genesis: func(t *rapid.T) *sim.GenSpec { return sim.DrawGenesis(t, sim.GenOpts{AbsentOpt: true}) },
 	Next: func(g *sim.G, i int) *sim.Op {
 		if op := queuedOp(g); op != nil {
 			return op
@@ -676,6 +676,14 @@ var C12 = register(&HistProp{ID: "C12",
 		g.BMPaused = rapid.Bool().Draw(t, "gen-bm")
 		g.SRPaused = rapid.Bool().Draw(t, "gen-sr")
 		g.MaxBody = 8000
+		// a flag left out of the genesis file starts paused, whatever the other flag says
+		if rapid.IntRange(0, 5).Draw(t, "gen-absent") == 0 {
+			for _, f := range []string{"bm", "sr"} {
+				if rapid.Bool().Draw(t, "absent-"+f) {
+					g.Absent = append(g.Absent, f)
+				}
+			}
+		}
 		return g
 	},
 	Next: func(g *sim.G, i int) *sim.Op {
@@ -800,7 +808,7 @@ func c13extra(c *strict, w *sim.World, s *sim.Step) *Viol {
 }
 
 var C13 = register(&HistProp{ID: "C13",
-	Genesis: func(t *rapid.T) *sim.GenSpec { return sim.DrawGenesis(t, sim.GenOpts{MaxAtt: 5}) },
+	Genesis: func(t *rapid.T) *sim.GenSpec { return sim.DrawGenesis(t, sim.GenOpts{MaxAtt: 5, AbsentOpt: true}) },
 	Next: func(g *sim.G, i int) *sim.Op {
 		if op := queuedOp(g); op != nil {
 			return op
